@@ -97,3 +97,51 @@ Fixpoint items_ok (l : list item) : Prop :=
   | [] => True
   | i :: l' => item_ok i /\ follows_ok i l' /\ items_ok l'
   end.
+
+(* ---------- extractHead / extractTail: what a successful extraction is ---------- *)
+
+Definition tbl := N -> bool.
+
+Definition allowed (t : option tbl) (lab : bytes) : Prop :=
+  match t with Some tb => Forall (fun c => tb c = true) lab | None => True end.
+
+(* the byte next to the fixed boundary must be acceptable as a label byte when a class is given *)
+Definition edge_ok (t : option tbl) (c : option N) : Prop :=
+  match t, c with Some tb, Some c => tb c = true | _, _ => True end.
+
+(* text = left ++ label ++ right ++ rest: the right boundary is the first occurrence of [r]
+   after the left boundary and ends within the first [maxr] bytes after it (or the whole
+   remainder is not longer than [maxr]); every label byte is in the class.
+   Without a right boundary the label is the longest non-empty run of class bytes. *)
+Inductive head_match (l r : bytes) (maxr : Z) (t : option tbl) (text : bytes) : bytes -> bytes -> Prop :=
+| HM_bounded lab rest :
+    r <> [] ->
+    text = l ++ lab ++ r ++ rest ->
+    first_occurrence r (lab ++ r ++ rest) (length lab) ->
+    (Z.of_nat (length lab + length r) <= maxr \/ Z.of_nat (length (lab ++ r ++ rest)) <= maxr) ->
+    allowed t lab ->
+    edge_ok t (hd_error (lab ++ r ++ rest)) ->
+    head_match l r maxr t text lab rest
+| HM_open tb lab rest :
+    r = [] -> t = Some tb ->
+    text = l ++ lab ++ rest ->
+    lab <> [] -> Forall (fun c => tb c = true) lab ->
+    match rest with [] => True | c :: _ => tb c = false end ->
+    head_match l r maxr t text lab rest.
+
+(* text = rest ++ left ++ label ++ right, mirrored *)
+Inductive tail_match (l r : bytes) (maxr : Z) (t : option tbl) (text : bytes) : bytes -> bytes -> Prop :=
+| TM_bounded lab rest :
+    l <> [] ->
+    text = rest ++ l ++ lab ++ r ->
+    last_occurrence l (rest ++ l ++ lab) (length rest) ->
+    (Z.of_nat (length l + length lab) <= maxr \/ Z.of_nat (length (rest ++ l ++ lab)) <= maxr) ->
+    allowed t lab ->
+    edge_ok t (hd_error (rev (rest ++ l ++ lab))) ->
+    tail_match l r maxr t text lab rest
+| TM_open tb lab rest :
+    l = [] -> t = Some tb ->
+    text = rest ++ lab ++ r ->
+    lab <> [] -> Forall (fun c => tb c = true) lab ->
+    match rev rest with [] => True | c :: _ => tb c = false end ->
+    tail_match l r maxr t text lab rest.
